@@ -65,3 +65,44 @@ theorem findIncompatibleEdgesWith_complete {c : Dag} {first e : Edge} {anc desc 
 
 end Dag
 end Graphiq
+
+/-! ## insertions at the beginning / at the end of wires are always well formed
+
+  The time-reversed solver inserts its gates on the first edge of each wire (`out_edges(<reg>_in)`), the evolutionary moves
+  partly on the last; for such edge lists the path-freeness clause of `InsertOK` holds for free: nothing reaches an input node,
+  nothing leaves an output node. -/
+namespace Graphiq
+namespace Dag
+open Relation
+
+theorem reflTransGen_to_source {α : Type} {E : α → α → Prop} {a b : α} (hs : ∀ x, ¬ E x b) (h : ReflTransGen E a b) : a = b := by
+  rcases ReflTransGen.cases_tail h with e | ⟨c, _, hc⟩
+  · exact e.symm
+  · exact absurd hc (hs c)
+
+/-- edges leaving input nodes (one per quantum register of the operation, keyed by it) form a well-formed `insert_at` argument -/
+theorem insertOK_of_input_edges {c : Dag} {P : Paths} (g : Good c P) {op : Op} {es : List Edge}
+    (hmem : ∀ e ∈ es, e ∈ c.edges) (hkeys : es.map (·.key) = op.qregs) (hsrc : ∀ e ∈ es, ∃ r, e.src = NodeId.inp r) :
+    InsertOK c op es := by
+  refine ⟨hmem, hkeys, ?_⟩
+  intro e1 he1 e2 he2 _ hr
+  obtain ⟨r, hr2⟩ := hsrc e2 he2
+  rw [hr2] at hr
+  have := reflTransGen_to_source (fun x => g.inv.inp_source r x) hr
+  have hE : c.E e1.src (NodeId.inp r) := ⟨e1, hmem e1 he1, rfl, this⟩
+  exact g.inv.inp_source r _ hE
+
+/-- edges entering output nodes form a well-formed `insert_at` argument -/
+theorem insertOK_of_output_edges {c : Dag} {P : Paths} (g : Good c P) {op : Op} {es : List Edge}
+    (hmem : ∀ e ∈ es, e ∈ c.edges) (hkeys : es.map (·.key) = op.qregs) (hdst : ∀ e ∈ es, ∃ r, e.dst = NodeId.out r) :
+    InsertOK c op es := by
+  refine ⟨hmem, hkeys, ?_⟩
+  intro e1 he1 e2 he2 _ hr
+  obtain ⟨r, hr1⟩ := hdst e1 he1
+  rw [hr1] at hr
+  have := reflTransGen_of_sink (fun x => g.inv.out_sink r x) hr
+  have hE : c.E (NodeId.out r) e2.dst := ⟨e2, hmem e2 he2, this.symm, rfl⟩
+  exact g.inv.out_sink r _ hE
+
+end Dag
+end Graphiq
